@@ -240,6 +240,12 @@ fn sighash(req: &Value) -> R {
     let value = un(req, "value")?;
     let pre = tx.sighash_preimage(flag, idx, &script, value).map_err(lib)?;
     let mut o = json!({ "preimage": h(&pre) });
+    // public hashPrevouts accessor: on the warmed object and on an untouched parse of the same bytes
+    o["hash_inputs_warm"] = h(&tx.hash_inputs(flag));
+    {
+        let mut t2 = Transaction::from_bytes(&bytes).map_err(|e| drv(format!("tx parse: {}", e)))?;
+        o["hash_inputs_cold"] = h(&t2.hash_inputs(flag));
+    }
     if bo(req, "twice") {
         // same call again on the same object (cache now warm)
         let pre2 = tx.sighash_preimage(flag, idx, &script, value).map_err(lib)?;
@@ -276,6 +282,8 @@ fn tx_sign(req: &Value) -> R {
         "sig": h(&sb),
         "sig_hex_eq": sig.to_hex().map_err(lib)? == hex::encode(&sb),
         "verify": tx.verify(&pubk, &sig),
+        "verify_plain": tx._verify(&pubk, &sig, false),
+        "verify_reversed": tx._verify(&pubk, &sig, true),
         "pub": h(&pubk.to_bytes().map_err(lib)?),
     }))
 }
@@ -353,6 +361,10 @@ fn history(req: &Value) -> R {
             }
             "get_outpoints" => {
                 rec["n"] = json!(live.get_outpoints().len());
+            }
+            "hash_inputs" => {
+                // public accessor that fills the hashPrevouts cache slot without going through a sighash call
+                rec["hash_inputs"] = h(&live.hash_inputs(flag_of(st_, "flag")?));
             }
             "sighash" | "sign" | "sign_k" => {
                 rec["live"] = sighash_call(&mut live, st_)?;
